@@ -674,6 +674,230 @@ theorem multiply_eq (l r : BitVec 64) : CPyTagged_Multiply l r =
   · have : ¬ (isShort l ∧ isShort r ∧ l.toNat < 2147483648 ∧ r.toNat < 2147483648) := fun h => hc ⟨h.1, h.2.1⟩
     simp only [hc, this, if_false]
 
+/-! ## shifts -/
+
+theorem and_FE_toInt (w : BitVec 64) : (w &&& 18446744073709551614#64).toInt = w.toInt - w.toInt % 2 := by
+  have h := and_FE_toNat w
+  have t1 := toInt_toNat w
+  have t2 := toInt_toNat (w &&& 18446744073709551614#64)
+  omega
+
+theorem eq_enc_of_toInt' (x : BitVec 64) (n : Int) (hx : x.toInt = 2 * n) : x = enc n ∧ Fits n := by
+  have hb := toInt_bounds x
+  have hf : Fits n := by unfold Fits; omega
+  exact ⟨eq_enc_of_toInt x n hf hx, hf⟩
+
+/-- floor division of a negative number by something at least as large in magnitude -/
+theorem ediv_neg_one (a n : Int) (hn : 0 < n) (h1 : -n ≤ a) (h2 : a < 0) : a / n = -1 := by
+  have h := Int.ediv_emod_unique (a := a) (b := n) (r := a + n) (q := -1) hn
+  exact (h.2 ⟨by omega, by omega, by omega⟩).1
+
+theorem two_pow_ge (k : Nat) (h : 64 ≤ k) : (18446744073709551616 : Int) ≤ ((2 ^ k : Nat) : Int) := by
+  have : 2 ^ 64 ≤ 2 ^ k := Nat.pow_le_pow_right (by omega) h
+  have h2 : (2 : Nat) ^ 64 = 18446744073709551616 := by decide
+  omega
+
+theorem pyShr_big (a : Int) (k : Nat) (hk : 64 ≤ k) (ha : Fits a) :
+    pyShr a k = if 0 ≤ a then 0 else -1 := by
+  unfold pyShr
+  have hp := two_pow_ge k hk
+  unfold Fits at ha
+  split
+  · exact Int.ediv_eq_zero_of_lt (by omega) (by omega)
+  · exact ediv_neg_one a _ (by omega) (by omega) (by omega)
+
+theorem pyShr_small (a : Int) (k : Nat) : (2 * a / ((2 ^ k : Nat) : Int)) / 2 = pyShr a k := by
+  unfold pyShr
+  have hpos : (0 : Int) < ((2 ^ k : Nat) : Int) := by
+    have : 0 < 2 ^ k := Nat.two_pow_pos k
+    omega
+  rw [Int.ediv_ediv_of_nonneg (by omega), Int.mul_comm _ 2, Int.mul_ediv_mul_of_pos _ _ (by omega)]
+
+theorem shortFromInt_m1 : CPyTagged_ShortFromInt 4294967295#32 = 18446744073709551614#64 := by decide
+
+theorem rshift_eq (l r : BitVec 64) : CPyTagged_Rshift l r =
+    if isShort l ∧ isShort r ∧ 0 ≤ sval r then .fast (enc (pyShr (sval l) (sval r).toNat))
+    else .slow ⟨"CPyTagged_Rshift_", [l, r], false⟩ := by
+  unfold CPyTagged_Rshift
+  simp only [checkShort_eq, BitVec.sle_eq_decide, lit_zero, Bool.and_eq_true, decide_eq_true_eq]
+  by_cases hc : isShort l ∧ isShort r
+  · obtain ⟨hl, hr⟩ := hc
+    have h1 := short_toInt l hl
+    have h2 := short_toInt r hr
+    by_cases hn : 0 ≤ r.toInt
+    · have hn' : 0 ≤ sval r := by omega
+      simp only [hl, hr, hn, hn', and_self, if_true]
+      have hC := shortAsSsize_toInt r
+      generalize CPyTagged_ShortAsSsize_t r = C at *
+      have tC := toInt_toNat C
+      have hk : C.toNat = (sval r).toNat := by omega
+      have hfl := short_fits l hl
+      simp only [BitVec.ule, show (64#64 : BitVec 64).toNat = 64 by decide, decide_eq_true_eq]
+      by_cases hbig : 64 ≤ C.toNat
+      · simp only [hbig, if_true]
+        have hp := pyShr_big (sval l) (sval r).toNat (by omega) hfl
+        by_cases hpos : 0 ≤ l.toInt
+        · have : 0 ≤ sval l := by omega
+          simp only [hpos, this, if_true] at hp ⊢
+          rw [hp]; rfl
+        · have : ¬ 0 ≤ sval l := by omega
+          simp only [hpos, this, if_false] at hp ⊢
+          rw [hp, shortFromInt_m1]; rfl
+      · simp only [hbig, if_false]
+        congr 1
+        apply (eq_enc_of_toInt' _ _ _).1
+        rw [and_FE_toInt, BitVec.toInt_sshiftRight, Int.shiftRight_eq_div_pow, h1, hk]
+        have := pyShr_small (sval l) (sval r).toNat
+        omega
+    · have : ¬ 0 ≤ sval r := by omega
+      simp [hl, hr, hn, this]
+  · have : ¬ (isShort l ∧ isShort r ∧ 0 ≤ sval r) := fun h => hc ⟨h.1, h.2.1⟩
+    have hc' : ¬ ((isShort l ∧ isShort r) ∧ 0 ≤ r.toInt) := fun h => hc h.1
+    simp only [this, hc', if_false]
+
+theorem rshift_no_ub (l r : BitVec 64) : CPyTagged_Rshift_ub l r = false := by
+  unfold CPyTagged_Rshift_ub
+  simp only [BitVec.ule, show (64#64 : BitVec 64).toNat = 64 by decide, decide_eq_true_eq]
+  split
+  · split
+    · rfl
+    · rename_i h; simp only [decide_eq_false_iff_not]; exact h
+  · rfl
+
+/-- `(x <<< k).toInt` is congruent to `x.toInt * 2^k` modulo `2^64`: there is `j` with
+    `(x <<< k).toInt = x.toInt * 2^k + 2^64 * j`. -/
+theorem shl_toInt_congr (x : BitVec 64) (k : Nat) :
+    ∃ j : Int, (x <<< k).toInt = x.toInt * ((2 ^ k : Nat) : Int) + 18446744073709551616 * j := by
+  have h1 : (x <<< k).toInt = ((x.toNat <<< k : Nat) : Int).bmod (2 ^ 64) := BitVec.toInt_shiftLeft
+  rw [Nat.shiftLeft_eq] at h1
+  have h2 := Int.bmod_eq_self_sub_mul_bdiv ((x.toNat * 2 ^ k : Nat) : Int) (2 ^ 64)
+  rw [h2] at h1
+  have t := toInt_toNat x
+  generalize Int.bdiv ((x.toNat * 2 ^ k : Nat) : Int) (2 ^ 64) = d at h1
+  have hcast : (((x.toNat * 2 ^ k : Nat) : Int)) = (x.toNat : Int) * ((2 ^ k : Nat) : Int) := by
+    simp [Int.natCast_mul]
+  have h64 : (((2 ^ 64 : Nat) : Int)) = 18446744073709551616 := by decide
+  rw [hcast, h64] at h1
+  rcases t with ⟨t1, _⟩ | ⟨t1, _⟩
+  · refine ⟨-d, ?_⟩
+    rw [h1, t1, Int.mul_neg]; omega
+  · refine ⟨((2 ^ k : Nat) : Int) - d, ?_⟩
+    have : (x.toNat : Int) = x.toInt + 18446744073709551616 := by omega
+    rw [h1, this, Int.add_mul, Int.mul_sub]
+    omega
+
+theorem two_pow_pos_int (k : Nat) : (0 : Int) < ((2 ^ k : Nat) : Int) := by
+  have : 0 < 2 ^ k := Nat.two_pow_pos k
+  omega
+
+/-- The overflow test of `IsShortLshiftOverflow` is exact: shifting back restores the word iff the product
+    fits 64 signed bits; and then the shifted word *is* the product. -/
+theorem shl_roundtrip (x : BitVec 64) (k : Nat) (hk : k < 64) :
+    (BitVec.sshiftRight (x <<< k) k = x ↔
+      (-9223372036854775808 ≤ x.toInt * ((2 ^ k : Nat) : Int) ∧ x.toInt * ((2 ^ k : Nat) : Int) < 9223372036854775808))
+    ∧ ((-9223372036854775808 ≤ x.toInt * ((2 ^ k : Nat) : Int) ∧ x.toInt * ((2 ^ k : Nat) : Int) < 9223372036854775808)
+        → (x <<< k).toInt = x.toInt * ((2 ^ k : Nat) : Int)) := by
+  obtain ⟨j, hj⟩ := shl_toInt_congr x k
+  have hA := two_pow_pos_int k
+  have hB := two_pow_pos_int (64 - k)
+  have hsplit : (18446744073709551616 : Int) = ((2 ^ k : Nat) : Int) * ((2 ^ (64 - k) : Nat) : Int) := by
+    rw [← Int.natCast_mul, ← Nat.pow_add]
+    have : k + (64 - k) = 64 := by omega
+    rw [this]; decide
+  have hby := toInt_bounds (x <<< k)
+  generalize hP : x.toInt * ((2 ^ k : Nat) : Int) = P at *
+  have hfwd : (-9223372036854775808 ≤ P ∧ P < 9223372036854775808) → (x <<< k).toInt = P := by
+    intro h; omega
+  refine ⟨⟨?_, ?_⟩, hfwd⟩
+  · intro h
+    have h2 : (BitVec.sshiftRight (x <<< k) k).toInt = x.toInt := by rw [h]
+    rw [BitVec.toInt_sshiftRight, Int.shiftRight_eq_div_pow] at h2
+    generalize ((2 ^ k : Nat) : Int) = A at *
+    generalize ((2 ^ (64 - k) : Nat) : Int) = B at *
+    have h3 : (x <<< k).toInt = (x.toInt + B * j) * A := by
+      rw [hj, hsplit, ← hP, Int.add_mul]
+      have : A * B * j = B * j * A := by ac_rfl
+      rw [this]
+    rw [h3, Int.mul_ediv_cancel _ (by omega)] at h2
+    have h4 : B * j = 0 := by omega
+    have h5 : j = 0 := by
+      rcases Int.mul_eq_zero.1 h4 with h | h
+      · omega
+      · exact h
+    subst h5
+    omega
+  · intro h
+    apply BitVec.toInt_inj.1
+    rw [BitVec.toInt_sshiftRight, Int.shiftRight_eq_div_pow, hfwd h, ← hP]
+    exact Int.mul_ediv_cancel _ (by omega)
+
+theorem lit_128 : (128#64 : BitVec 64).toNat = 128 := by decide
+
+theorem lshift_eq (l r : BitVec 64) : CPyTagged_Lshift l r =
+    if isShort l ∧ isShort r ∧ 0 ≤ sval r ∧ sval r < 64 ∧ Fits (pyShl (sval l) (sval r).toNat)
+    then .fast (enc (pyShl (sval l) (sval r).toNat))
+    else .slow ⟨"CPyTagged_Lshift_", [l, r], false⟩ := by
+  unfold CPyTagged_Lshift IsShortLshiftOverflow
+  simp only [checkShort_eq, BitVec.sle_eq_decide, BitVec.ult, lit_128, lit_zero, Bool.and_eq_true,
+    decide_eq_true_eq, Bool.not_eq_true', bne_eq_false_iff_eq]
+  by_cases hc : isShort l ∧ isShort r
+  · obtain ⟨hl, hr⟩ := hc
+    have h1 := short_toInt l hl
+    have h2 := short_toInt r hr
+    have tr := toInt_toNat r
+    by_cases hn : 0 ≤ r.toInt ∧ r.toNat < 128
+    · obtain ⟨hn1, hn2⟩ := hn
+      have hn1' : 0 ≤ sval r := by omega
+      have hn2' : sval r < 64 := by omega
+      simp only [hl, hr, hn1, hn2, hn1', hn2', and_self, true_and, if_true]
+      have hC := shortAsSsize_toInt r
+      generalize CPyTagged_ShortAsSsize_t r = C at *
+      have tC := toInt_toNat C
+      have hk : C.toNat = (sval r).toNat := by omega
+      have hk64 : C.toNat < 64 := by omega
+      obtain ⟨hrt, hval⟩ := shl_roundtrip l C.toNat hk64
+      rw [hk] at hrt hval ⊢
+      generalize (sval r).toNat = k at *
+      unfold pyShl
+      have hP : l.toInt * ((2 ^ k : Nat) : Int) = 2 * (sval l * ((2 ^ k : Nat) : Int)) := by
+        rw [h1, Int.mul_assoc]
+      rw [hP] at hrt hval
+      generalize sval l * ((2 ^ k : Nat) : Int) = p at *
+      by_cases hf : Fits p
+      · have hr' : -9223372036854775808 ≤ 2 * p ∧ 2 * p < 9223372036854775808 := by unfold Fits at hf; omega
+        simp only [hrt.2 hr', hf, if_true]
+        congr 1
+        exact eq_enc_of_toInt _ _ hf (hval hr')
+      · have hr' : ¬ (-9223372036854775808 ≤ 2 * p ∧ 2 * p < 9223372036854775808) := by unfold Fits at hf; omega
+        have : ¬ BitVec.sshiftRight (l <<< k) k = l := fun e => hr' (hrt.1 e)
+        simp only [this, hf, if_false]
+    · have : ¬ (isShort l ∧ isShort r ∧ 0 ≤ sval r ∧ sval r < 64 ∧ Fits (pyShl (sval l) (sval r).toNat)) := by
+        intro h; apply hn; omega
+      have hc' : ¬ (((isShort l ∧ isShort r) ∧ 0 ≤ r.toInt) ∧ r.toNat < 128) := fun h => hn ⟨h.1.2, h.2⟩
+      simp only [this, hc', if_false]
+  · have : ¬ (isShort l ∧ isShort r ∧ 0 ≤ sval r ∧ sval r < 64 ∧ Fits (pyShl (sval l) (sval r).toNat)) :=
+      fun h => hc ⟨h.1, h.2.1⟩
+    have hc' : ¬ (((isShort l ∧ isShort r) ∧ 0 ≤ r.toInt) ∧ r.toNat < 128) := fun h => hc h.1.1
+    simp only [this, hc', if_false]
+
+theorem lshift_no_ub (l r : BitVec 64) : CPyTagged_Lshift_ub l r = false := by
+  unfold CPyTagged_Lshift_ub IsShortLshiftOverflow_ub
+  simp only [checkShort_eq, BitVec.sle_eq_decide, BitVec.ult, lit_128, lit_zero, Bool.and_eq_true,
+    decide_eq_true_eq]
+  split
+  · rename_i h
+    obtain ⟨⟨⟨hl, hr⟩, hn1⟩, hn2⟩ := h
+    have h2 := short_toInt r hr
+    have tr := toInt_toNat r
+    have hC := shortAsSsize_toInt r
+    generalize CPyTagged_ShortAsSsize_t r = C at *
+    have tC := toInt_toNat C
+    have h64 : ¬ 64 ≤ C.toNat := by omega
+    have h0 : ¬ C.toInt < 0 := by omega
+    have h64' : ¬ 64 ≤ C.toInt := by omega
+    simp [h64, h0, h64']
+  · rfl
+
 /-! ## the exact result fits whenever the fast path is taken -/
 
 theorem multiply_fits (l r : BitVec 64)
